@@ -24,3 +24,26 @@ def register(claim):
           "Process-death durability (what the kernel was handed survives); power-loss reordering and fsync are not "
           "modelled. Python's own buffered/text layers are real; only the raw layer and os.* calls are the seam.",
           "DESIGN.md section 5, C20")
+    claim("C14", "exploration",
+          f"{SIM}: seeded iteration histories with checkpoint-restart events through the storage seam; one-step "
+          "refinement of every node against a float64 reference model; twin (restarted vs continuous) equality",
+          "Every configuration class the property names (n=3,4 all limits incl. above the maximum, n=5 limits 1..3, "
+          "plain/plus) is constructed and driven through seeded iteration histories; at every internal node the "
+          "strategies are checked to be distributions with the right support and the regret / strategy update is "
+          "compared with an independent float64 one-step model; a saved-and-reloaded minimiser is fed the same "
+          "iterations as the continuous one and must stay array-identical.",
+          "float32 tolerances (2e-4*scale abs, 1e-4 rel) for the one-step comparison; rows are addressed through the "
+          "documented rank of a node; the checkpoint goes through SimFS fault-free (the property has no crash in it).",
+          "DESIGN.md section 5, C14")
+    claim("C10", "exploration",
+          f"{SIM}: hidden-randomness seam - twin seeded generator calls separated by entropy jumps of every hidden "
+          "stream, other calls and a change of simulated process image (SimPool worker, fork/fresh); class monitors "
+          "on every draw",
+          "Decides by seeded search whether a seeded generator's output depends on anything in the process besides "
+          "(name, n, supplied generator state): call history, global numpy/random streams, module-level generator, "
+          "round-robin owner, worker image. Every registered key except 'convex' is invoked for n=3..6 (..8 "
+          "thorough) and each draw is monitored for player count, v(empty)=0, float64, superadditivity and - for "
+          "the XOS/XS/OXS/K-budget/coverage keys - monotonicity.",
+          "Class membership is monitored on sampled draws only (tolerance: relative 1e-9 as documented); the "
+          "documented exceptions are exempt from the twin comparison only.",
+          "DESIGN.md section 5, C10")
